@@ -224,6 +224,14 @@ impl<'a> TryFrom<&RawAttribute<'a>> for PasswordAlgorithm {
             return Err(StunParseError::InvalidAttributeData);
         }
         let algorithm = PasswordAlgorithmValue::read(&raw.value)?;
+        // the value is exactly one algorithm entry, nothing may follow its parameters
+        let expected = 4 + padded_attr_len(algorithm.len() as usize);
+        if raw.value.len() != expected {
+            return Err(StunParseError::TooLarge {
+                expected,
+                actual: raw.value.len(),
+            });
+        }
         Ok(Self { algorithm })
     }
 }
